@@ -881,7 +881,7 @@ def b(ctx):
     clears = [cfg.loc1(s) for k, s in stores_to(fi.node, "self.can_reuse_nonce") if k == "assign" and isinstance(s, ast.Assign) and isinstance(s.value, ast.Constant) and s.value.value is False]
     nonnull = 0
     for r in rets:
-        v = r.value
+        v = resolve_local(fi.node, r.value)
         ctx.need(isinstance(v, ast.Tuple) and len(v.elts) == 2, "get_reusable_kid_and_piv does not return a pair")
         if all(_is_none_const(x) for x in v.elts):
             continue
@@ -1050,18 +1050,31 @@ def _const_int(e, consts):
 
 def _flag_mask(fn, test, flagvars, consts, P):
     """int mask for `flag & CONST`, 'nonempty' for tests of the option being empty, else None."""
+    m, _ = _flag_cond(fn, test, True, flagvars, consts, P)
+    return m
+
+
+def _flag_cond(fn, test, pol, flagvars, consts, P):
+    """(mask, polarity) of a test on flag bits: `flag & C`, `n` with n = flag & C, `n != 0`, `n == 0`, `n > 0`."""
     t = resolve_local(fn, test)
+    if isinstance(t, ast.Compare) and len(t.ops) == 1 and isinstance(t.comparators[0], ast.Constant) and t.comparators[0].value == 0 \
+            and isinstance(t.ops[0], (ast.Eq, ast.NotEq, ast.Gt)):
+        inner = _flag_cond(fn, t.left, pol if not isinstance(t.ops[0], ast.Eq) else (not pol), flagvars, consts, P)
+        if isinstance(inner[0], int):
+            return inner
     if isinstance(t, ast.BinOp) and isinstance(t.op, ast.BitAnd):
         for f, c in ((t.left, t.right), (t.right, t.left)):
             if isinstance(f, ast.Name) and f.id in flagvars:
-                return _const_int(c, consts)
+                return _const_int(c, consts), pol
     if isinstance(t, ast.Name) and t.id == P:
-        return "nonempty"
+        return "nonempty", pol
     if isinstance(t, ast.Compare) and len(t.ops) == 1 and {chain(t.left), chain(t.comparators[0])} & {P}:
-        return "nonempty"
+        return "nonempty", pol
+    if isinstance(t, ast.Call) and chain(t.func) == "len" and len(t.args) == 1 and chain(t.args[0]) == P:
+        return "nonempty", pol
     if isinstance(t, ast.Name) and t.id in flagvars:
-        return "nonempty"
-    return None
+        return "nonempty", pol
+    return None, pol
 
 
 def _is_validation_guard(cfg, pid):
@@ -1124,7 +1137,12 @@ def _reader_layout(ctx, prog, fi, consts):
         tgt = stmt.targets[0] if isinstance(stmt, ast.Assign) and len(stmt.targets) == 1 else None
         key = _cose_key(prog, fi, tgt.slice) if isinstance(tgt, ast.Subscript) else None
         ctx.need(key is not None, "_uncompress: store into the unprotected map that is not map[COSE_*] = value")
-        v = resolve_local(fn, val)
+        v = val
+        while isinstance(v, ast.Name) and v.id not in cursors:
+            ds = fl.reaching(v.id, nid)
+            if len(ds) != 1 or ds[0].kind != "assign":
+                break
+            v, nid = ds[0].value, ds[0].nid  # the field is cut where the local is defined
         if sub_of(v, cursors) and isinstance(v.slice, ast.Slice) and v.slice.step is None and v.slice.upper is not None:
             events.append({"k": "read", "nid": nid, "key": key, "lo": v.slice.lower, "hi": v.slice.upper, "node": stmt})
             used.add(id(v))
@@ -1153,10 +1171,10 @@ def _reader_layout(ctx, prog, fi, consts):
         for test, pol, pid in cfg.guards(nid):
             if _is_validation_guard(cfg, pid):
                 continue
-            m = _flag_mask(fn, test, flagvars, consts, P)
+            m, epol = _flag_cond(fn, test, pol, flagvars, consts, P)
             if m == "nonempty":
                 continue
-            if m is None or pol is not True:
+            if m is None or epol is not True:
                 raise AnalysisError("C11.d: _uncompress: layout depends on a condition the rule cannot interpret: %s" % stmt_text(test))
             ms.append(m)
         return ms
@@ -1258,10 +1276,10 @@ def _writer_layout(ctx, prog, fi, consts):
             blocks = []
             for pos, op in enumerate(ops[1:]):
                 alts = fl.terminals(op, tn)
-                blk = {"op": op, "key": None, "items": None, "empty_ok": None, "node": None, "lenexpr": None, "cond": None, "last": pos == len(ops) - 2}
+                blk = {"op": op, "key": None, "items": None, "empties": [], "node": None, "lenexpr": None, "cond": None, "last": pos == len(ops) - 2}
                 for at, an, ac in alts:
                     if isinstance(at, ast.Constant) and at.value == b"":
-                        blk["empty_ok"] = in_key(ac, False)
+                        blk["empties"].append(in_key(ac, False) if in_key(ac, True) is None else "although %s present" % in_key(ac, True))
                         continue
                     ctx.need(isinstance(at, ast.AST), "_compress: option segment defined in a way the rule cannot interpret")
                     items = []
@@ -1334,7 +1352,7 @@ def d(ctx):
         items = blk["items"]
         fields = [i for i in items if i[0] == "field"]
         key = fields[0][1] if len(fields) == 1 else None
-        if blk["cond"] is None and blk["empty_ok"] is None:
+        if blk["cond"] is None and not blk["empties"]:
             # unconditional segment: the partial IV
             call = fields[0][2] if fields else None
             dflt = isinstance(call, ast.Call) and len(call.args) == 2 and isinstance(call.args[1], ast.Constant) and call.args[1].value == b""
@@ -1342,8 +1360,12 @@ def d(ctx):
             wl.append((nmask, [(key, "flagbits")]))
             continue
         bits = W["bits"].get(blk["cond"], [])
-        ctx.ob("segment %s is written exactly when its flag bit is set" % key, blk["cond"] is not None and blk["cond"] == key and blk["empty_ok"] == key and len(bits) == 1, wf, blk["node"],
-               detail="non-empty when %s present, empty when %s absent, bits %s" % (blk["cond"], blk["empty_ok"], [bin(m) for m, _ in bits]))
+        def region(nid):
+            return {pid for _, _, pid in wcfg.guards(nid) if not _is_validation_guard(wcfg, pid)}
+        together = len(bits) == 1 and region(bits[0][1].nid) == region(blk["nid"])
+        ctx.ob("segment %s is written exactly when its flag bit is set" % key,
+               blk["cond"] is not None and blk["cond"] == key and all(x in (key, None) for x in blk["empties"]) and together, wf, blk["node"],
+               detail="non-empty when %s present, empty when %s absent, bits %s, same branch: %s" % (blk["cond"], blk["empties"], [bin(m) for m, _ in bits], together))
         mask = bits[0][0] if bits else None
         if len(items) == 2 and items[0] == ("len", key):
             wl.append((mask, [("len",), (key, "lenbyte")]))
@@ -1382,12 +1404,12 @@ def d(ctx):
     resv = REF_FLAGS["COMPRESSION_BITS_RESERVED"]
     rets = [rcfg.loc1(n) for n in walk_no_nested(rf.node) if isinstance(n, ast.Return)]
     for rn in rets:
-        hit = [(t, pol, pid) for t, pol, pid in rcfg.guards(rn) if _flag_mask(rf.node, t, flagvars, consts, params(rf)[0]) == resv and pol is False]
+        hit = [(t, pol, pid) for t, pol, pid in rcfg.guards(rn) if _flag_cond(rf.node, t, pol, flagvars, consts, params(rf)[0]) == (resv, False)]
         ctx.ob("_uncompress returns only when no reserved flag bit is set", bool(hit), rf, rcfg.nodes[rn].ast)
     raises = [n for n in walk_no_nested(rf.node) if isinstance(n, ast.Raise)]
     n_res = 0
     for rz in raises:
-        g = [(t, pol) for t, pol, pid in rcfg.guards(rcfg.loc1(rz)) if _flag_mask(rf.node, t, flagvars, consts, params(rf)[0]) == resv and pol is True]
+        g = [(t, pol) for t, pol, pid in rcfg.guards(rcfg.loc1(rz)) if _flag_cond(rf.node, t, pol, flagvars, consts, params(rf)[0]) == (resv, True)]
         if g:
             n_res += 1
             cls = qn(prog, rf, rz.exc.func if isinstance(rz.exc, ast.Call) else rz.exc) if rz.exc is not None else None
@@ -1428,7 +1450,7 @@ def e(ctx):
     for short in (CU + "_uncompress", CU + "_extract_encrypted0"):
         fi = prog.func(short)
         escs = EA.escapes(fi)
-        ctx.floor("escapes of %s" % short, len(escs), 3)
+        ctx.floor("escapes of %s" % short, len(escs), 1)
         for esc in sorted(escs, key=repr):
             if esc.key() in seen:
                 continue
@@ -1441,7 +1463,7 @@ def e(ctx):
             stmt = stmt_of(ofi, node) if nodes and cfg_of(ofi).locate(node) else node
             ctx.ob("decoding the OSCORE option of an unauthenticated message fails only with ProtectionInvalid (or NotAProtectedMessage)", ok, ofi, stmt,
                    detail="%s can escape from `%s`%s" % (esc.cls, esc.text, (" via " + " > ".join(esc.via)) if esc.via else ""))
-    ctx.floor("protection-error origins in option decoding", n_allowed, 4)
+    ctx.floor("protection-error origins in option decoding", n_allowed, 2)
     unres = [u for u in EA.unresolved if u[0] in (CU + "_uncompress", CU + "_extract_encrypted0")]
     ctx.need(not unres, "unresolved calls inside the option decoding region: %s" % unres)
     # unprotect: raising sites located in unprotect itself and not dominated by decrypt
@@ -1617,7 +1639,50 @@ def s(ctx):
     for base, hook in (("aiocoap.oscore.CanProtect", "_get_sender_key"), ("aiocoap.oscore.CanUnprotect", "_get_recipient_key"), ("aiocoap.oscore.CanUnprotect", "_post_decrypt_checks"),
                        ("aiocoap.oscore.CanProtect", "protect"), ("aiocoap.oscore.CanUnprotect", "unprotect"), ("aiocoap.oscore.CanProtect", "_split_message")):
         over = [c for c in prog.subclasses(base) if c != base and hook in prog.classes[c].methods]
-        if hook in ("protect", "unprotect", "_split_message"):
-            ctx.ob("no subclass replaces %s (the clauses speak about the one implementation)" % hook, not over, None, None, construct="overrides of %s" % hook, detail=", ".join(over))
-        elif over:
-            ctx.note("SIBLING-NOTE %s is overridden by %s; C11.a/C11.f are decided for the default hook only" % (hook, ", ".join(x.split(".")[-1] for x in over)))
+        for c in over:
+            m = prog.classes[c].methods[hook]
+            deleg = any(isinstance(x, ast.Call) and isinstance(x.func, ast.Attribute) and x.func.attr == hook and isinstance(x.func.value, ast.Call)
+                        and chain(x.func.value.func) == "super" for x in walk_no_nested(m.node))
+            ctx.note("SIBLING-NOTE %s.%s overrides the analysed implementation (%s); the clauses are decided for %s.%s only"
+                     % (c.replace("aiocoap.", ""), hook, "wraps super().%s" % hook if deleg else "does not delegate", base.replace("aiocoap.", ""), hook))
+    ctx.ob("sibling sweep of the customisation hooks completed", True, None, None, construct="overrides of protect/unprotect hooks")
+
+
+# ---------------------------------------------------------------------------
+# seeded faults (sensitivity self-test)
+F_OS = "aiocoap/oscore.py"
+R.seed("C11.a", F_OS, "            uri_host=outer_host,\n", "            uri_host=outer_host,\n            uri_path=message.opt.uri_path,\n", "a Class E option copied to the outer message")
+R.seed("C11.a", F_OS, "        outer_message.payload = payload\n", "        outer_message.payload = plaintext\n", "plaintext sent as the outer payload")
+R.seed("C11.a", F_OS, "_, payload = self._compress(protected, unprotected, ciphertext)", "_, payload = self._compress(protected, unprotected, plaintext)", "plaintext instead of ciphertext into _compress")
+R.seed("C11.a", F_OS, "                outer_code = POST\n", "                outer_code = message.code\n", "the inner code leaks as outer code")
+R.seed("C11.a", F_OS, "outer_message.set_request_uri(outer_uri)", "outer_message.set_request_uri(proxy_uri)", "path and query of the Proxy-Uri leak to the outer message")
+R.seed("C11.a", F_OS, "                uri_host=None,\n                uri_port=None,", "                uri_port=None,", "Uri-Host stays in the inner message")
+R.seed("C11.a", F_OS, "CodeStyle.POST_CHANGED = CodeStyle(POST, CHANGED)", "CodeStyle.POST_CHANGED = CodeStyle(POST, CONTENT)", "wrong outer response code")
+R.seed("C11.a", F_OS, "        outer_message.direction = Direction.OUTGOING\n", "        outer_message.direction = Direction.OUTGOING\n        outer_message.opt.max_age = message.opt.max_age\n", "a further inner option stored on the outer message")
+R.seed("C11.b", F_OS, "            request_id.kid,\n            request_id.partial_iv,\n            class_i_options,", "            request_id.kid,\n            class_i_options,", "request partial IV dropped from the AAD")
+R.seed("C11.b", F_OS, "            partial_iv_generated_by = request_id.kid\n", "            partial_iv_generated_by = self.recipient_id\n", "response nonce not bound to the request's kid")
+R.seed("C11.b", F_OS, "            self.can_reuse_nonce = False\n            return", "            return", "nonce can be reused more than once")
+R.seed("C11.b", F_OS, "            unprotected[COSE_PIV] = partial_iv_short\n", "            pass\n", "fresh partial IV not sent")
+R.seed("C11.b", F_OS, "plaintext = alg_symmetric.decrypt(ciphertext, aad, key, nonce)", "plaintext = alg_symmetric.decrypt(ciphertext, aad, key, self.common_iv)", "nonce not derived from the identifiers")
+R.seed("C11.c", F_OS, "alg.iv_bytes - 6 - len(piv_generator_id)", "alg.iv_bytes - 5 - len(piv_generator_id)", "ID padding off by one")
+R.seed("C11.c", F_OS, "components = s + pad_id + piv_generator_id + pad_piv + partial_iv_short", "components = s + pad_id + partial_iv_short + pad_piv + piv_generator_id", "ID and PIV swapped in the nonce")
+R.seed("C11.c", F_OS, 'partial_iv = seqno.to_bytes(5, "big")', 'partial_iv = seqno.to_bytes(5, "little")', "little-endian partial IV")
+R.seed("C11.c", F_OS, "self.common_iv[: len(components)]", "self.common_iv[-len(components) :]", "wrong end of the common IV")
+R.seed("C11.d", F_OS, '        if firstbyte & COMPRESSION_BITS_RESERVED:\n            raise DecodeError("Protected data uses reserved fields")\n\n', "", "reserved bits accepted")
+R.seed("C11.d", F_OS, "option = bytes([firstbyte]) + piv + s_kid_context + kid_data", "option = bytes([firstbyte]) + piv + kid_data + s_kid_context", "writer emits kid before the kid context")
+R.seed("C11.d", F_OS, "            tail = tail[1:]\n            unprotected[COSE_KID_CONTEXT]", "            unprotected[COSE_KID_CONTEXT]", "reader does not skip the context length byte")
+R.seed("C11.d", F_OS, "            unprotected[COSE_KID_CONTEXT] = tail[:s]\n            tail = tail[s:]", "            unprotected[COSE_KID_CONTEXT] = tail[:s]\n            tail = tail[s + 1 :]", "reader skips one byte too many")
+R.seed("C11.d", F_OS, "if len(piv) > COMPRESSION_BITS_N:", "if len(piv) > COMPRESSION_BITS_N + 1:", "8-byte partial IV overflows into the k bit")
+R.seed("C11.d", F_OS, "            firstbyte |= COMPRESSION_BIT_H\n            kid_context", "            firstbyte |= COMPRESSION_BIT_GROUP\n            kid_context", "wrong flag bit for the kid context")
+R.seed("C11.e", F_OS, 'raise ProtectionInvalid("The protected field is not empty")', 'raise ValueError("The protected field is not empty")', "plain ValueError before authentication")
+R.seed("C11.e", F_OS, 'raise NotAProtectedMessage("No Object-Security option present", message)', 'raise KeyError("No Object-Security option present")')
+R.seed("C11.e", F_OS, '                raise DecodeError("Partial IV announced but not present")', '                raise IndexError("Partial IV announced but not present")')
+R.seed("C11.f", F_OS, '            raise ProtectionInvalid("Sender ID does not match")', '            _alglog.debug("Sender ID does not match")', "KID comparison without effect")
+R.seed("C11.f", F_OS, "unprotected.pop(COSE_KID_CONTEXT, self.id_context) != self.id_context", "unprotected.pop(COSE_KID_CONTEXT, None) is None", "ID context no longer compared")
+R.seed("C11.f", F_OS, '            _alglog.debug("Unprotecting failed")\n            raise e\n', '            _alglog.debug("Unprotecting failed")\n            plaintext = b"\\x45"\n', "decrypt failure swallowed")
+R.seed("C11.f", F_OS, "len(ciphertext) < self.alg_aead.tag_bytes + 1", "len(ciphertext) < self.alg_aead.tag_bytes", "length check off by one")
+R.seed("C11.g", F_OS, '            return aead.AESGCM(key).decrypt(iv, ciphertext_and_tag, aad)\n        except cryptography.exceptions.InvalidTag:\n            raise ProtectionInvalid("Tag invalid")',
+       '            return aead.AESGCM(key).decrypt(iv, ciphertext_and_tag, aad)\n        except cryptography.exceptions.InvalidTag:\n            return b""', "invalid tag yields an empty plaintext")
+R.seed("C11.g", F_OS, '            return aead.ChaCha20Poly1305(key).decrypt(iv, ciphertext_and_tag, aad)\n        except cryptography.exceptions.InvalidTag:\n            raise ProtectionInvalid("Tag invalid")',
+       '            return aead.ChaCha20Poly1305(key).decrypt(iv, ciphertext_and_tag, aad)\n        except cryptography.exceptions.InvalidTag:\n            raise', "InvalidTag escapes unconverted")
+R.seed("C11.g", F_OS, 'raise ProtectionInvalid("Padding is inconsistent")', 'raise ValueError("Padding is inconsistent")')
